@@ -341,7 +341,7 @@ def call_spec(V, spec, self_val, args, kwargs, st, node):
     V.old_stack.append((pre, 'call'))
     try:
         for e in spec.ensures:
-            st.assume(V.eval_spec_bool(e, st, env2))
+            st.fact(V.eval_spec_bool(e, st, env2))
     finally:
         V.old_stack.pop()
     return res
